@@ -164,5 +164,26 @@ def shard_foreign(job, tier):
     return multi.run_foreign(job, t, PROPERTY_ID)
 
 
+def on_build_failure(fails, total):
+    """the property quantifies over the instruction-set features the library is compiled for: a feature set the unchanged tree builds
+    for and the tree under test does not is reported as a violation (the compiler log is the replay artefact), not as a machinery error"""
+    import os
+    rest = dict(fails)
+    for b in ("sse41", "avx", "avx2", "native"):
+        if b in rest and "rel" not in fails:
+            log = rest.pop(b)
+            os.makedirs(core.REPLAY_DIR, exist_ok=True)
+            path = os.path.join(core.REPLAY_DIR, "C16-build-%s.log" % b)
+            open(path, "w").write(log)
+            total.violation_count += 1
+            total.violations.append({"property": PROPERTY_ID, "build": b, "program": [], "step": 0, "expected": "the crate builds with the %s feature set" % b,
+                                     "observed": "BUILD-FAILED", "meta": {"log": path}, "note": log[-1500:]})
+    return rest
+
+
+def shards_after_build_failure(tier, fails):
+    return []
+
+
 def post(total, tier):
     multi.compare_transcripts(total, PROPERTY_ID)
